@@ -4,6 +4,7 @@ package lab
 
 import (
 	"github.com/saucelabs/forwarder/header"
+	"github.com/saucelabs/forwarder/httplog"
 	"context"
 	"errors"
 	"sync/atomic"
@@ -160,6 +161,9 @@ type ProxyOpts struct {
 	ConnectTo      []string
 	AllowTimeFrame []ruleset.TimeFrameEntry
 	ReqMods        []forwarder.RequestModifier
+	ReadTimeout    time.Duration // HTTPServerConfig.ReadTimeout / WriteTimeout (Go API only)
+	WriteTimeout   time.Duration
+	LogHTTPMode    string        // --log-http mode of the proxy ("" = the default, errors)
 	DialAttempts   int           // dial retry (default 1: a refused dial is final)
 	DialBackoff    time.Duration
 	ConnectHeaders []string // --connect-header rules, wired as command/run does (request modifier for CONNECT + GetProxyConnectHeader)
@@ -268,6 +272,15 @@ func StartProxy(o ProxyOpts) (*ProxyInst, error) {
 	}
 	cfg.BasicAuth = o.BasicAuth
 	cfg.AllowTimeFrame = o.AllowTimeFrame
+	if o.ReadTimeout > 0 {
+		cfg.ReadTimeout = o.ReadTimeout
+	}
+	if o.WriteTimeout > 0 {
+		cfg.WriteTimeout = o.WriteTimeout
+	}
+	if o.LogHTTPMode != "" {
+		cfg.LogHTTPMode = httplog.Mode(o.LogHTTPMode)
+	}
 	cfg.RequestModifiers = o.ReqMods
 	var connectHeaders []header.Header
 	for _, r := range o.ConnectHeaders {
